@@ -440,6 +440,7 @@ def run_property(prop, tier, seed, rebaseline=False, only_units=None):
         'functions_under_contract': functions_under_contract,
         'functions_of_anchored_files_not_under_contract': not_under_contract,
         'rewrites_applied': rewrites,
+        'anchor_lost': [{'unit': u, **a} for u, r in verus_results.items() for a in r.get('anchor_lost', [])],
         'assumption_scan': assumptions_scan,
         'canaries': [{'unit': u, 'canary': k, 'failed_as_required': r['functions'].get(k, {}).get('status') == 'failed'}
                      for u, r in verus_results.items() if r['status'] == 'ok'
